@@ -16,7 +16,7 @@ pub fn ref_header(tl: u16, pt: u16) -> u32 {
 
 /// (b) init value, field order and endianness of the 4-byte prefix, all 2^32 (tl, pt) pairs.
 #[kani::proof]
-#[kani::unwind(4)]
+#[kani::unwind(12)]
 pub fn header_prefix() {
     let tl: u16 = kani::any();
     let pt: u16 = kani::any();
@@ -30,7 +30,7 @@ pub fn header_prefix() {
 /// prefix bytes ranges over all 2^32 values (4 arbitrary bytes into a 32-bit CRC is a
 /// bijection), so this exercises every table index in every register state.
 #[kani::proof]
-#[kani::unwind(4)]
+#[kani::unwind(12)]
 pub fn byte_step_pdu() {
     let tl: u16 = kani::any();
     let pt: u16 = kani::any();
@@ -43,7 +43,7 @@ pub fn byte_step_pdu() {
 
 /// Same lemma for a label byte (label precedes the PDU).
 #[kani::proof]
-#[kani::unwind(4)]
+#[kani::unwind(12)]
 pub fn byte_step_label() {
     let tl: u16 = kani::any();
     let pt: u16 = kani::any();
@@ -98,7 +98,7 @@ pub fn differential() {
 /// (catalogue check value), computed through DefaultCrc by mapping the nine bytes onto
 /// total length | protocol type | label(3) | pdu(2).
 #[kani::proof]
-#[kani::unwind(5)]
+#[kani::unwind(12)]
 pub fn check_value() {
     let got = DefaultCrc {}.calculate_crc32(b"89", 0x3334, 0x3132, b"567");
     assert!(got == 0x0376_E6E7, "C12.catalogue_check_value");
@@ -156,7 +156,7 @@ pub fn sender_wiring() {
 
 #[cfg(feature = "twins")]
 #[kani::proof]
-#[kani::unwind(4)]
+#[kani::unwind(12)]
 pub fn twin_byte_step() {
     let tl: u16 = kani::any();
     let pt: u16 = kani::any();
